@@ -350,3 +350,36 @@ fn test_chainable_undefined() {
         "<>"
     );
 }
+
+#[test]
+#[cfg(feature = "macros")]
+fn test_args_splat_of_undefined() {
+    // `f(*value)` iterates the value, so an undefined one is treated like in a for loop
+    for (behavior, fails) in [
+        (UndefinedBehavior::Chainable, false),
+        (UndefinedBehavior::Lenient, false),
+        (UndefinedBehavior::SemiStrict, true),
+        (UndefinedBehavior::Strict, true),
+    ] {
+        let mut env = Environment::new();
+        env.set_undefined_behavior(behavior);
+        let rv = env.render_str(
+            "{% macro m(a=1) %}<{{ a }}>{% endmacro %}{{ m(*undefined) }}",
+            (),
+        );
+        if fails {
+            assert_eq!(rv.unwrap_err().kind(), ErrorKind::UndefinedError);
+        } else {
+            assert_eq!(rv.unwrap(), "<1>");
+        }
+        // a defined list and the silent undefined of an if expression without else still work
+        assert_eq!(
+            env.render_str(
+                "{% macro m(a=1) %}<{{ a }}>{% endmacro %}{{ m(*[2]) }}{{ m(*(3 if false)) }}",
+                ()
+            )
+            .unwrap(),
+            "<2><1>"
+        );
+    }
+}
